@@ -196,8 +196,50 @@ def coq_actions(acts):
 
 def model_traces(ctx, schedules):
     exprs = [f'trace (init {zlit(s["cap"])}) {coq_actions(s["acts"])}' for s in schedules]
-    vals = coq_eval(ctx, HEADER, exprs, shard=max(50, min(400, len(exprs) // 16 + 1)))
+    vals = coq_eval(ctx, HEADER, exprs, shard=100)
     return [[[v, [list(e) for e in q], sorted(h), list(g)] for (v, q, h, g) in tr] for tr in vals]
+
+
+_P = 2305843009213693951
+
+
+def encode(acts):
+    z = 0
+    for k, a in enumerate(acts):
+        if a[0] == 's':
+            d = 1
+        elif a[0] == 'a':
+            d = 2 + 4 * a[1]
+        else:
+            d = 3 + 4 * a[1]
+        assert 0 < d < 2 ** 20 and (a[0] == 's' or a[1] >= 0)
+        z |= d << (20 * k)
+    return z
+
+
+def fingerprint(trace):
+    """Same function as SemFifo.Model.fingerprint, computed from the implementation's observations."""
+    h, seen = 7, 0
+    for v, q, hold, elog in trace:
+        xs = [v, len(q)]
+        for i, w in q:
+            xs += [i, w]
+        xs += [len(hold)] + sorted(hold) + [len(elog)] + list(elog[seen:])
+        seen = len(elog)
+        for x in xs:
+            h = (h * 131 + x + 7) & _P
+    return h
+
+
+def model_fingerprints(ctx, schedules, n_sh=8):
+    exprs = [f'fingerprint {zlit(s["cap"])} (decode {len(s["acts"])} {encode(s["acts"])})' for s in schedules]
+    order = sorted(range(len(exprs)), key=lambda k: -len(schedules[k]['acts']))
+    perm = [k for r in range(n_sh) for k in order[r::n_sh]]
+    vals = coq_eval(ctx, HEADER, [exprs[k] for k in perm], shard=max(1, (len(exprs) + n_sh - 1) // n_sh), label='fp')
+    out = [None] * len(exprs)
+    for k, v in zip(perm, vals):
+        out[k] = v
+    return out
 
 
 def impl_results(ctx, schedules):
@@ -208,23 +250,31 @@ def correspond(ctx):
     tagged = all_schedules(ctx)
     schedules = [s for _, s in tagged]
     impl = impl_results(ctx, schedules)
-    model = model_traces(ctx, schedules)
+    fps = model_fingerprints(ctx, schedules)
+    differing = [k for k, (fp, r) in enumerate(zip(fps, impl)) if fp != fingerprint(r['trace'])]
+    differing.sort(key=lambda k: len(schedules[k]['acts']))
+    full = dict(zip(differing[:30], model_traces(ctx, [schedules[k] for k in differing[:30]])))
     dis = []
     hist = {}
     n_obs = 0
     nontrivial = set()
-    for (tag, s), m, r in zip(tagged, model, impl):
+    for (tag, s), r in zip(tagged, impl):
         hist[tag] = hist.get(tag, 0) + 1
-        n_obs += len(m)
-        if any(o[1] for o in m):            # some observation with a non-empty queue: blocking actually happened
+        n_obs += len(r['trace'])
+        if any(o[1] for o in r['trace']):            # some observation with a non-empty queue: blocking actually happened
             nontrivial.add(str(s))
-        if m != r['trace']:
-            k = next((j for j, (x, y) in enumerate(zip(m, r['trace'])) if x != y), min(len(m), len(r['trace'])))
-            dis.append(Disagreement('SemFifo.trace~FIFOWeightedSemaphore', {'schedule': s, 'first_diff_at_settle': k},
-                                    m[k] if k < len(m) else None, r['trace'][k] if k < len(r['trace']) else None))
+    for k in differing:
+        s, r = schedules[k], impl[k]
+        if k in full:
+            m = full[k]
+            j = next((j for j, (x, y) in enumerate(zip(m, r['trace'])) if x != y), min(len(m), len(r['trace'])))
+            dis.append(Disagreement('SemFifo.trace~FIFOWeightedSemaphore', {'schedule': s, 'first_diff_at_settle': j},
+                                    m[j] if j < len(m) else None, r['trace'][j] if j < len(r['trace']) else None))
+        else:
+            dis.append(Disagreement('SemFifo.trace~FIFOWeightedSemaphore', {'schedule': s}, 'fingerprint differs', r['trace'][-1] if r['trace'] else None))
     ctx._c16_cache = (tagged, impl)
     return Corr(evaluations=len(schedules), distinct_nontrivial=len(nontrivial),
-                rule='one evaluation = one schedule run on the real FIFOWeightedSemaphore (DetLoop) and on the Coq model (vm_compute), '
+                rule='one evaluation = one schedule run on the real FIFOWeightedSemaphore (DetLoop) and on the Coq model (vm_compute; fingerprint of the whole trace, differing schedules re-evaluated in full), '
                      'all observations (value, queue ids+weights in order, set of holders, order of entry into the bodies) after every Settle compared; '
                      'non-trivial = distinct schedule in which some job actually blocked; '
                      f'{n_obs} observations compared; exhaustive classes: settled cap3/w123/4 jobs (thorough 5)/7 actions (thorough 9), settled cap2/w12/5 jobs, burst cap3/3 jobs (thorough 4)',
